@@ -150,12 +150,17 @@ plan("C05", "exploration",
      "forwarding headers naming a listed address or none x {Sign, Multisign}: the source is what the TCP connection says.",
      q, t)
 
+REAL_W8 = (" One layer (mode=realnet) replaces nothing: 2-5 instances named like the repository's signer certificates talk through Dirk's own sender (services/sender/grpc, TLS with the "
+           "instance's certificate) into each other's real gRPC edge; names are mapped to the loopback address by a resolver registered in the worker process; faults there are single failing calls of "
+           "the receiving instance's process service.")
 REAL_W2 = ("REAL per instance: process/standard (DKG), receiver gRPC handlers, accountmanager/lister/signer handlers and services, ruler, locker, rules on badger, checker/static, fetcher/mem, "
            "unlocker/local, peers/static (Peer, All), distributed + nd wallets on a scratch store, keystorev4 (cost 2^10), herumi BLS. REPLACED: services/sender/grpc by the simulated "
            "transport (same protobuf messages through Marshal/Unmarshal into the destination's real receiver handler under the authenticated name the TLS interceptor would derive); "
            "peers.Suitable re-implemented (the real one iterates a Go map; order drawn from the choice source). STUB: gRPC/TLS, metrics/tracing, wall clock (synctest fake clock).")
 q, t = tiers(60, 90, 2500, 1500)
-q["require_probes"] = ["successful_generations", "refused_out_of_range", "threshold_subsets_checked"]
+q["layers"] = [dict(runs=60, budget_s=90, params="")] * 15 + native([dict(runs=60, budget_s=90, params="mode=realnet")])
+t["layers"] = [dict(runs=2500, budget_s=1500, params="")] * 15 + native([dict(runs=2500, budget_s=1500, params="mode=realnet")])
+q["require_probes"] = ["successful_generations", "refused_out_of_range", "threshold_subsets_checked", "realnet_generations"]
 t["require_probes"] = q["require_probes"]
 plan("C12", "exploration",
      "one case = one seeded generation in a cluster of n(+0..2 spare) real instances: (n,t) walks the complete table 1<=n<=7, 0<=t<=n+1 (42 pairs, every t outside n/2<t<=n must be refused "
@@ -164,17 +169,18 @@ plan("C12", "exploration",
      "(n, t, id-set class, initiator role, tamper) tuple; non-trivial = all. Oracle on success: every participant's wallet store holds the account with identical composite key (= the one "
      "returned), verification vector, threshold and participant map; share key = vector evaluated at the participant's id; every t-subset of partial signatures obtained through the real "
      "signer recovers a signature valid under the composite key and no (t-1)-subset does; listed and signing on every participant immediately and after a restart.",
-     q, t, real_vs_stub=REAL_W2)
+     q, t, real_vs_stub=REAL_W2 + REAL_W8)
 
 def c13_layers(matrix_runs, rand_runs, budget, mw=8):
     ls = [dict(runs=matrix_runs, budget_s=budget, params="mode=matrix,mw=%d,mW=%d" % (k, mw)) for k in range(mw)]
     ls += [dict(runs=rand_runs, budget_s=budget, params="")] * (16 - mw)
+    ls += native([dict(runs=rand_runs, budget_s=budget, params="mode=realnet")])
     return ls
 q, t = tiers(60, 120, 1500, 1500)
 q["layers"] = c13_layers(125, 40, 120)
 t["layers"] = c13_layers(260, 1500, 1500)
 q["require_complete"] = t["require_complete"] = [("matrix_cases", "matrix_total")]
-q["require_probes"] = t["require_probes"] = ["failed_generations", "recovery_generations"]
+q["require_probes"] = t["require_probes"] = ["failed_generations", "recovery_generations", "realnet_generations"]
 plan("C13", "fault_enumeration",
      "(a) single-fault matrix, enumerated completely: (n,t) in {(2,2),(3,2),(3,3),(4,3),(5,3)} (thorough adds (5,4),(7,4)) x every message of the prepare/execute/contribute sequence, "
      "addressed by identity (sender, receiver, kind, account, occurrence) x fault kind {lost, error reply, lost reply, duplicate delivery; for contributions, in request and in reply "
@@ -182,7 +188,7 @@ plan("C13", "fault_enumeration",
      "consistent with it (a dishonest participant's own polynomial), empty vector; and each of these alterations arriving as a second contribution after the genuine one was accepted}; (b) seeded double faults on drawn id sets. distinct = distinct case; non-trivial = all. "
      "Oracle: the client gets an error, no instance holds the account in its wallet store or its cache, no handler call panics, and a fault-free generation under another name then "
      "succeeds with a fully consistent key (C12's oracle); duplicate delivery may alternatively end in a fully consistent success.",
-     q, t, real_vs_stub=REAL_W2, crash_is_violation=True)
+     q, t, real_vs_stub=REAL_W2 + REAL_W8, crash_is_violation=True)
 
 def all_matrix_layers(runs, budget, mw=16, extra=""):
     return [dict(runs=runs, budget_s=budget, params="mode=matrix,mw=%d,mW=%d%s" % (k, mw, extra)) for k in range(mw)]
